@@ -313,7 +313,7 @@ func (g *progGen) stmt(sb *strings.Builder, sc *scope, depth int, ind string) {
 		if v == "" {
 			v = g.varOfKind(sc, 'M')
 			if v != "" {
-				fmt.Fprintf(sb, "%s%s.%s = %s\n", ind, v, []string{"a", "b", "k"}[g.r.Intn(3)], g.exprK(sc, 1, 'I'))
+				fmt.Fprintf(sb, "%s%s.%s = %s\n", ind, v, []string{"a", "b", "k"}[g.r.Intn(3)], g.scalarExpr(sc, 2))
 				return
 			}
 		}
@@ -324,8 +324,38 @@ func (g *progGen) stmt(sb *strings.Builder, sc *scope, depth int, ind string) {
 		if v == "" || (g.o.FailOps && g.r.Intn(12) == 0) {
 			v = sc.vars[g.r.Intn(len(sc.vars))]
 		}
-		fmt.Fprintf(sb, "%s%s[%s] = %s\n", ind, v, g.smallIdx(), g.exprK(sc, 1, 'I'))
+		fmt.Fprintf(sb, "%s%s[%s] = %s\n", ind, v, g.smallIdx(), g.scalarExpr(sc, 2))
 	}
+}
+
+// scalarExpr is the right-hand side of every store INTO a container: it can only evaluate to an
+// int, a bool or a string (or fail), never to a container.  Scripts can build values that contain
+// themselves (`a[0] = a`), and rendering, copying or comparing such a value overflows the Go stack
+// of the implementation (known finding C19:cyclic-arg), which would kill the harness process.
+func (g *progGen) scalarExpr(sc *scope, depth int) string {
+	if depth <= 0 || g.r.Intn(3) == 0 {
+		lits := []string{"0", "1", "2", "3", "7", "(-1)", "100", "true", "\"s\"", "'c'"}
+		return lits[g.r.Intn(len(lits))]
+	}
+	switch g.r.Intn(4) {
+	case 0:
+		if len(sc.vars) > 0 && g.o.Builtins {
+			return "len(" + sc.vars[g.r.Intn(len(sc.vars))] + ")"
+		}
+	case 1:
+		if len(sc.vars) > 0 && g.o.Builtins {
+			return "typeName(" + sc.vars[g.r.Intn(len(sc.vars))] + ")"
+		}
+	case 2:
+		if len(sc.vars) > 0 {
+			return "(" + sc.vars[g.r.Intn(len(sc.vars))] + " == " + g.scalarExpr(sc, depth-1) + ")"
+		}
+	}
+	ops := []string{"+", "-", "*", "&", "|"}
+	if g.o.FailOps && g.r.Intn(4) == 0 {
+		ops = []string{"/", "%", "<<"}
+	}
+	return "(" + g.scalarExpr(sc, depth-1) + " " + ops[g.r.Intn(len(ops))] + " " + g.scalarExpr(sc, depth-1) + ")"
 }
 
 func (g *progGen) callExpr(sc *scope, depth int) string {
